@@ -5,6 +5,7 @@ import (
 	"context"
 	"crypto/tls"
 	"fmt"
+	"sort"
 	"strings"
 
 	wire "github.com/jeroenrinzema/psql-wire"
@@ -22,8 +23,8 @@ type c10 struct{ base }
 var c10limits = []int{-1, 0, 1, 2, 15, 16, 17, 100, 4095, 4096, 4097, 65536}
 
 func init() {
-	core.Register(c10{base{id: "C10", level: "exploration", quickB: 24, thoroughB: 48,
-		rule: "grid: limit L in {-1,0 (=16 MiB default),1,2,15,16,17,100,4095,4096,4097,65536} (one child process per limit so the allocation profile is attributable) x body size in {0,1,L-1,L,L+1,L+2,2L-1,2L,2L+1,3L+7,10L+1} x message type in {Q,P,B,D,E,C,H,S,d,c,f,p,unknown} x position in {first after startup, between simple queries, inside a batch, while skipping, during COPY, in place of the password, as the startup packet, inside an upgraded TLS connection}; declared-only lengths {2^31-1, 2^31, 2^32-1} with little data then EOF; declared lengths 0-3 (below the minimum). Bodies <= L must be processed normally (callback sees exactly the content); bodies > L must be skipped in full and answered by exactly one ERROR/54000 ErrorResponse, after which Sync + a unique probe Query must be answered normally (detects mis-framing); startup/auth: connection ends without session. Allocation sanitizer (MemProfileRate=1): no object allocated by library code may exceed 4L+64KiB. Exhaustive product in thorough, seeded subset in quick. Non-trivial = size within 2 of a multiple of L or declared-only/sub-minimum; distinct = (L, size class, type, position).",
+	core.Register(c10{base{id: "C10", level: "exploration", quickB: 24, thoroughB: 96,
+		rule:        "grid: limit L in {-1,0 (=16 MiB default),1,2,15,16,17,100,4095,4096,4097,65536} (one child process per limit so the allocation profile is attributable) x body size in {0,1,L-1,L,L+1,L+2,2L-1,2L,2L+1,3L+7,10L+1} x message type in {Q,P,B,D,E,C,H,S,d,c,f,p,unknown} x position in {first after startup, between simple queries, inside a batch, while skipping, during COPY, in place of the password, as the startup packet, inside an upgraded TLS connection}; declared-only lengths {2^31-1, 2^31, 2^32-1} with little data then EOF; declared lengths 0-3 (below the minimum). Bodies <= L must be processed normally (callback sees exactly the content); bodies > L must be skipped in full and answered by exactly one ERROR/54000 ErrorResponse, after which Sync + a unique probe Query must be answered normally (detects mis-framing); startup/auth: connection ends without session. Allocation sanitizer (MemProfileRate=1): no object allocated by library code may exceed 4L+64KiB. Exhaustive product in thorough, seeded subset in quick. Thorough adds 48 batches with a limit drawn per (seed, batch) from {12..64, 64..1024, 1024..20000, 2^k-1..2^k+1 for k in 13..17, 2^20} in which the message under test is delivered cut into PRNG-chosen segments (cuts inside the header, at L, at L+5). Non-trivial = size within 2 of a multiple of L or declared-only/sub-minimum; distinct = (L, size class, type, position).",
 		need:        []string{"at_limit_processed", "over_limit_skipped", "probe_after_oversize_ok", "startup_or_auth_oversize", "sub_minimum_lengths", "declared_only_huge", "alloc_profile_checks", "copy_mode_oversize"},
 		assumptions: append([]string{"after an oversized extended-protocol message the reply may be E or E Z (C06's open reading); for declared lengths below 4 only 'no callback from that frame, no crash, no large allocation' is judged"}, commonAssumptions...)}})
 }
@@ -36,6 +37,7 @@ type c10case struct {
 	Pos   string // first between batch skipping copy password startup
 	Mode  string // body | declared | submin
 	SizeN string // symbolic size
+	Cuts  []int  // delivery segmentation of the message under test (thorough, drawn limits)
 }
 
 func (k c10case) sig() string {
@@ -131,6 +133,28 @@ func (ch c10) Run(c *core.Ctx) {
 	core.AllocSanitizerOn()
 	L := c10limits[c.Batch%len(c10limits)]
 	part, parts := c.Batch/len(c10limits), ch.Batches(c.Tier)/len(c10limits)
+	drawn := false
+	if c.Tier == "thorough" {
+		// first half: the fixed limits (4 parts each); second half: one drawn limit per batch
+		parts = 4
+		if c.Batch >= 4*len(c10limits) {
+			drawn, part, parts = true, 0, 1
+			r := core.NewRng(c.Seed, "C10-limit", c.Batch, 0)
+			switch r.Intn(5) {
+			case 0:
+				L = 12 + r.Intn(52)
+			case 1:
+				L = 64 + r.Intn(960)
+			case 2:
+				L = 1024 + r.Intn(19000)
+			case 3:
+				L = 1<<(13+r.Intn(5)) - 1 + r.Intn(3)
+			default:
+				L = core.Pick(r, []int{1 << 20, 16384, 8192, 70000, 33})
+			}
+			c.Count("drawn_limits", 1)
+		}
+	}
 	all := ch.cases(L, c.Tier == "thorough")
 	eff := L
 	if eff <= 0 {
@@ -166,6 +190,14 @@ func (ch c10) Run(c *core.Ctx) {
 		if k.Pos == "tls" {
 			ch.runTLS(c, envTLS, k)
 			continue
+		}
+		if drawn && k.Mode == "body" && k.Size > 0 {
+			n := int(k.Size) + 5
+			for j := rng.Intn(4); j >= 0; j-- {
+				k.Cuts = append(k.Cuts, core.Pick(rng, []int{1, 2, 4, 5, 6, k.Eff + 4, k.Eff + 5, k.Eff + 6, 1 + rng.Intn(n), 1 + rng.Intn(n)}))
+			}
+			sort.Ints(k.Cuts)
+			c.Count("segmented_deliveries", 1)
 		}
 		ch.runCase(c, envPlain, envAuth, k, i)
 		ran++
@@ -389,7 +421,14 @@ func (ch c10) runCase(c *core.Ctx, envPlain, envAuth *hs.Env, k c10case, idx int
 	}
 	defer cl.Finish()
 	expect := func(what string, in []byte, want ...string) (string, bool) {
-		out, closed := cl.Step(in)
+		var out []byte
+		var closed bool
+		if len(k.Cuts) > 0 && (what == "oversized message" || what == "message at or below the limit") {
+			cl.C.SendCut(in, k.Cuts)
+			out, closed = cl.Wait()
+		} else {
+			out, closed = cl.Step(in)
+		}
 		if hangCheck(c, cl, cs) {
 			return "", false
 		}
